@@ -3,6 +3,7 @@ import ast
 import re
 
 from ..core import AnalysisError
+from .shared_py import inn
 from ..pyfront import unparse, try_const, norm_key
 
 INT_CLOSED = {'Add': '+', 'Sub': '-', 'Mult': '*', 'FloorDiv': '//', 'LShift': '<<', 'RShift': '>>', 'BitOr': '|', 'BitAnd': '&'}
@@ -167,12 +168,12 @@ def name_tables(ctx, L):
     pp = ctx.py.mod('prophyc.parsers.prophy')
     f = pp.func('Parser.p_include_def')
     s = ws(unparse(f.node))
-    L.check('if isinstance(node, model.Constant): self.constdecls[node.name] = node' in s and
-            'if isinstance(node, model.Enum): for mem in node.members: self.constdecls[mem.name] = mem' in s, 'C14g.name-tables',
+    L.check(inn('if isinstance(node, model.Constant): self.constdecls[node.name] = node', s) and
+            inn('if isinstance(node, model.Enum): for mem in node.members: self.constdecls[mem.name] = mem', s), 'C14g.name-tables',
             'p_include_def', f.site(), 'constants AND enumerators of an included file enter the expression scope', s[-400:])
     n = pp.func('Parser.p_expression_name')
     s = ws(unparse(n.node))
-    L.check('const = self.constdecls.get(t[1])' in s and 't[0] = const and int(const.value) or 0' in s and "\"constant '{}' was not declared\".format(t[1])" in s,
+    L.check(inn('const = self.constdecls.get(t[1])', s) and inn('t[0] = const and int(const.value) or 0', s) and inn("\"constant '{}' was not declared\".format(t[1])", s),
             'C14g.name-tables', 'p_expression_name', n.site(), 'names resolve through constdecls (undeclared names are errors)', s)
     for q in ('Parser.p_constant_def', 'Parser.p_enum_member'):
         g = pp.func(q)
@@ -180,20 +181,20 @@ def name_tables(ctx, L):
     model = ctx.py.mod('prophyc.model')
     cc = model.func('_collect_constants')
     s = ws(unparse(cc.node))
-    L.check('constants.update(_collect_constants(node_.members, constants))' in s and 'constants[node_.name] = node_.eval_int(constants)' in s
-            and 'for member in node_.members: constants[member.name] = member.eval_int(constants)' in s, 'C14g.name-tables',
+    L.check(inn('constants.update(_collect_constants(node_.members, constants))', s) and inn('constants[node_.name] = node_.eval_int(constants)', s)
+            and inn('for member in node_.members: constants[member.name] = member.eval_int(constants)', s), 'C14g.name-tables',
             '_collect_constants', cc.site(), 'the model-time table holds constants and enumerators, including those of includes', s[:400])
     ei = model.func('Constant.eval_int')
     s = ws(unparse(ei.node))
-    L.check('return int(self.value)' in s and 'return calc.eval(self.value, all_constants)' in s and 'except calc.ParseError: return None' in s,
+    L.check(inn('return int(self.value)', s) and inn('return calc.eval(self.value, all_constants)', s) and inn('except calc.ParseError: return None', s),
             'C14g.name-tables', 'Constant.eval_int', ei.site(), 'a constant is its literal integer or the calc evaluation under the table', s)
     ti = model.func('to_int')
     s = ws(unparse(ti.node))
-    L.check('return int(x)' in s and 'val = constants.get(x)' in s and 'return val if val is not None else calc.eval(x, constants)' in s,
+    L.check(inn('return int(x)', s) and inn('val = constants.get(x)', s) and inn('return val if val is not None else calc.eval(x, constants)', s),
             'C14g.name-tables', 'to_int', ti.site(), 'array sizes evaluate through the same table and evaluator', s)
     pn = ctx.py.mod('prophyc.calc').func('Calc.p_expression_name')
     s = ws(unparse(pn.node))
-    L.check('while not isinstance(p[0], int): p[0] = self.vars[p[0]]' in s and 'except LookupError: raise ParseError' in s, 'C14g.name-tables',
+    L.check(inn('while not isinstance(p[0], int): p[0] = self.vars[p[0]]', s) and inn('except LookupError: raise ParseError', s), 'C14g.name-tables',
             'calc.p_expression_name', pn.site(), 'names resolve through the table handed to eval (unknown names are errors)', s)
 
 
